@@ -29,9 +29,13 @@ DELIVERY = ("after-close", "right-socket")
 def spec_c11(impl, scn):
     fails = spec.check(impl, scn)
     try:
-        fails += [f for f in udpspec.check(impl, scn) if f[0] in DELIVERY]
-    except Exception:
-        pass
+        for f in udpspec.check(impl, scn):
+            if f[0] in DELIVERY: fails.append(f)
+            elif f[0] == "monitor-error": fails.append(("internal", "specs/udp.py: " + str(f[1])))   # (it catches its own exceptions)
+    except Exception as e:
+        # a crashing monitor must not read as "held"
+        import traceback
+        fails.append(("internal", "specs/udp.py raised %r: %s" % (e, traceback.format_exc(limit=3).replace("\n", " | "))))
     return fails
 
 def gen_c11(seed, tier):
